@@ -80,8 +80,13 @@ func (batch *Batch) close() (err error) {
 	batch.conn = nil
 	batch.lock = nil
 
+	// Skip what is left of the fetch response. If that fails (the deadline
+	// expired or the connection broke while the rest was still on its way)
+	// the connection cannot be used again: the bytes that arrive later would
+	// be taken for the response to the next request.
+	var discardErr error
 	if batch.msgs != nil {
-		batch.msgs.discard()
+		discardErr = batch.msgs.discard()
 	}
 
 	if batch.msgs != nil && batch.msgs.decompressed != nil {
@@ -103,6 +108,13 @@ func (batch *Batch) close() (err error) {
 			var kafkaError Error
 			if !errors.As(err, &kafkaError) && !errors.Is(err, io.ErrShortBuffer) {
 				conn.Close()
+			}
+		}
+
+		if discardErr != nil {
+			conn.Close()
+			if err == nil {
+				err = discardErr
 			}
 		}
 	}
